@@ -328,7 +328,7 @@ func main() {
 	}
 	for name, h := range refs[0] {
 		if strings.HasPrefix(h, "error:") || strings.HasPrefix(h, "panic:") {
-			if !strings.HasPrefix(name, "prog:") { // programs with constant operands may be rejected at compile time
+			if !strings.HasPrefix(name, "prog:") && !strings.Contains(name, ":FAILS-") { // programs with constant operands may be rejected at compile time; FAILS- targets are meant to
 				c.Fatal("target %s does not compile: %s", name, h)
 			}
 		}
